@@ -127,7 +127,43 @@ def compare_gen(reals):
     return len(todo), diffs
 
 
+def parse_class(s):
+    """ok | err:<class> with syn's own messages folded into one class (their wording is syn's business)"""
+    if s.startswith("err:Syn:") or s == "err:Syn":
+        return "err:Syn"
+    return s
+
+
+def compare_parse(reals):
+    """Parser model (with the syn oracle of each input, computed by the harness) vs the real parser.
+    `reals` must come from run_real(..., with_oracle=True).  Returns (n_compared, diffs)."""
+    todo = [r for r in reals if r.parse != "lexerr" and not r.parse.startswith("panic")]
+    lines = ["PARSE\t%s\t%s\t%s" % (r.id, r.in_toks, r.oracle or "-") for r in todo]
+    outs = run_driver(lines) if lines else []
+    diffs = []
+    for r, o in zip(todo, outs):
+        f = o.split("\t")
+        if len(f) < 3 or f[0] != r.id or f[1] in ("badinput", "badoracle"):
+            diffs.append(Diff(r, "driver", o[:300]))
+            continue
+        rc, mc = parse_class(r.parse), parse_class(f[1])
+        if rc != mc:
+            diffs.append(Diff(r, "parse-outcome", {"real": r.parse, "model": f[1]}))
+        elif rc == "ok" and unspace(r.structure) != unspace(f[2]):
+            diffs.append(Diff(r, "parse-structure", first_token_diff(unspace(r.structure), unspace(f[2])), f[2]))
+    return len(todo), diffs
+
+
 if __name__ == "__main__":
+    if len(sys.argv) > 1 and sys.argv[1] == "parse":
+        rs = run_real([("x", "a0t0s0", sys.argv[2], "adhoc")], with_oracle=True)
+        print(rs[0], rs[0].structure, rs[0].oracle, sep="\n")
+        n, d = compare_parse(rs)
+        for x in d:
+            print(x.to_json(), x.model_out)
+        if not d:
+            print("agree", rs[0].parse)
+        sys.exit(0)
     # ad-hoc: k1.py KIND 'source'
     kind, src = sys.argv[1], sys.argv[2]
     rs = run_real([("x", kind, src, "adhoc")])
